@@ -79,8 +79,8 @@ func ParseDuration(s string) (time.Duration, error) { return time.ParseDuration(
 
 // Timers are not virtualised (the lease files do not use them); provided so that a file
 // using them still compiles and behaves as with package time.
-func Sleep(d time.Duration)                         { time.Sleep(d) }
-func After(d time.Duration) <-chan time.Time        { return time.After(d) }
-func NewTimer(d time.Duration) *time.Timer          { return time.NewTimer(d) }
-func NewTicker(d time.Duration) *time.Ticker        { return time.NewTicker(d) }
+func Sleep(d time.Duration)                           { time.Sleep(d) }
+func After(d time.Duration) <-chan time.Time          { return time.After(d) }
+func NewTimer(d time.Duration) *time.Timer            { return time.NewTimer(d) }
+func NewTicker(d time.Duration) *time.Ticker          { return time.NewTicker(d) }
 func AfterFunc(d time.Duration, f func()) *time.Timer { return time.AfterFunc(d, f) }
